@@ -7062,9 +7062,12 @@ let flush s cases =
 
 let end_testcase s index =
   match s.lp_cmd with
-  | [] -> (match s.lp_exps with
-           | [] -> LOk s
-           | _ :: _ -> LErr)
+  | [] ->
+    (match s.lp_exps with
+     | [] -> (match s.lp_code with
+              | Some _ -> LErr
+              | None -> LOk s)
+     | _ :: _ -> LErr)
   | _ :: _ ->
     let tc = { pt_title = (match s.lp_title with
                            | Some t -> t
@@ -7140,9 +7143,12 @@ let set_title s t =
 
 let has_body s =
   match s.lp_cmd with
-  | [] -> (match s.lp_exps with
-           | [] -> false
-           | _ :: _ -> true)
+  | [] ->
+    (match s.lp_exps with
+     | [] -> (match s.lp_code with
+              | Some _ -> true
+              | None -> false)
+     | _ :: _ -> true)
   | _ :: _ -> true
 
 (** val iNDENT : text **)
